@@ -446,7 +446,8 @@ func (api *API) mapDecodeStructFields(
 		}
 
 		// an inlined field that carries a field key is nested under that key by the map encoder
-		if sField.settings.inlined && sField.settings.ts.fieldKey == nil {
+		// (a map is never inlined by the map encoder, see mapEncodeStructFields)
+		if sField.settings.inlined && sField.settings.ts.fieldKey == nil && DeRefPointer(sField.fType).Kind() != reflect.Map {
 			if err := api.mapDecode(ctx, m, fieldValue, sField.settings.ts, opts); err != nil {
 				return ierrors.Wrapf(err, "failed to deserialize inlined struct field %s", sField.name)
 			}
